@@ -4,12 +4,13 @@ from rules.summary_common import *
 
 EXPLANATION = (
     "D1 dispatch table of Summary::from_str: variable V -> the setter/pusher that writes V, accumulate for list variables, overwrite otherwise, integer variables parsed with parse::<i64> and `?`; "
+    "each setter/pusher/getter addresses its own variable and carries the value unchanged (D1-ACCESSOR/D1-PAYLOAD), insert_or_update overwrites or inserts on every path (a repeated variable keeps its last value, whatever the value is) and insert_or_push appends (D1-PRIMITIVE); "
     "D2 required-variable sets of from_str, is_completed and the spec agree, Incomplete names the right variable, MissingVariable prints its pkg_summary name; "
     "D3 error kinds (ParseLine for a line without '=', unknown variable / bad integer propagated unchanged); "
     "D4 the line is split at the first '=' (splitn(2,'=')/split_once), key = part 0, value = part 1")
 NOT_DECIDED = [
     "str::lines / str::parse::<i64> semantics (std)",
-    "that accumulated order equals input order beyond 'push appends' (C07 D4-PRIMITIVE) and 'lines() is in order' (std)",
+    "that accumulated order equals input order beyond 'push appends' (D1-PRIMITIVE) and 'lines() is in order' (std)",
 ]
 CONFIG_SENSITIVE = False
 
@@ -200,3 +201,7 @@ def run(ctx):
             truth = last is not None and ((last.fact == ("eq", True)) != bool(g and g[1]))
             ctx.check(bool(g) and truth and g[0] in {v["stem"] for v in required}, "D2-REQUIRED-COMPLETED", IC, "false-path-%s" % (g[0] if g else i),
                       "false only because a required variable is absent", "is_completed returns false on a path not caused by a missing required variable", fn_span(ibody), nontrivial=False)
+
+    # ---- D1 (continued): what the dispatched setters/pushers do, and what the getters the caller observes return (shared with C07)
+    accessors(ctx, V, "D1-ACCESSOR", "D1-PAYLOAD")
+    primitives(ctx, "D1-PRIMITIVE")
